@@ -98,6 +98,13 @@ Theorem C16_oracle_leak : forall sc s j t tp, wf sc -> reachable sc s ->
 Proof. exact leak_ok_model. Qed.
 Print Assumptions C16_oracle_leak.
 
+(* ... and the outcomes of every timed history of calls on one collector object: calls in start
+   order, each taking any time >= 0 when let in, equal or unequal lengths, and either resolution
+   of the race between a call and a return of the same instant *)
+Theorem C16_oracle_guard : forall cs T, starts_from T cs -> C16_guard_ok (hist_model ginit None 0 cs) = true.
+Proof. exact guard_oracle_model. Qed.
+Print Assumptions C16_oracle_guard.
+
 (* lts_outcomes_allowed: the schedule search of the dispatcher (Extract/GlueC16.v) only ever
    produces states of the model, so an observation it accepts is an outcome of the LTS *)
 Theorem C16_guided_schedules_are_model_schedules : forall fuel sc lim g s0 s g', reachable sc s0 ->
@@ -138,4 +145,15 @@ Proof. vm_compute. reflexivity. Qed.
 Example ex_guard :
   snd (grun ginit [GCall 0 3 3; GCall 1 0 0; GCall 2 2 3; GReturn 0; GCall 3 1 1])
   = [GO_call Started; GO_call PanicBusy; GO_call PanicLen; GO_ret; GO_call Started].
+Proof. reflexivity. Qed.
+
+(* a timed history: a call taking 100, one made during it, one with unequal lengths, one made
+   at the instant it returns (return first), one made while that one is in progress *)
+Example ex_history :
+  map go_out (hist_model ginit None 0
+    [ {| hc_start := 0; hc_lens := true; hc_dur := 100; hc_return_first := true |};
+      {| hc_start := 10; hc_lens := true; hc_dur := 5; hc_return_first := true |};
+      {| hc_start := 20; hc_lens := false; hc_dur := 5; hc_return_first := true |};
+      {| hc_start := 100; hc_lens := true; hc_dur := 30; hc_return_first := true |};
+      {| hc_start := 129; hc_lens := true; hc_dur := 1; hc_return_first := false |} ]) = [0; 2; 1; 0; 2].
 Proof. reflexivity. Qed.
